@@ -271,6 +271,7 @@ def caseLine (s : JState) (line : String) : JState :=
   | "ureloc" :: rest => { s with pendingUnit := s.pendingUnit ++ [("ureloc" :: rest)] }
   | "upatch" :: rest => { s with pendingUnit := s.pendingUnit ++ [("upatch" :: rest)] }
   | "utimes" :: rest => { s with pendingUnit := s.pendingUnit ++ [("utimes" :: rest)] }
+  | "uqsort" :: rest => { s with pendingUnit := s.pendingUnit ++ [("uqsort" :: rest)] }
   | _ => s
 
 /-! ### unit outputs -/
@@ -321,6 +322,33 @@ def judgeUnit (cmd : List String) (out : List String) : List String :=
         got.getD i "" == want)
       if ok then [] else [s!"reloc-offsets-not-preserved got={r}"]
     | _ => [s!"ureloc-unexpected-output {out}"]
+  | "uqsort" :: _ =>
+    -- what sorting means, not how qsort.c does it: nothing torn, the same elements, and — when the comparison table is
+    -- a strict order on the values that occur — no later element below an earlier one
+    match out with
+    | ["qs", r] =>
+      let v := csvNat (kv cmd "v")
+      let m := (kv cmd "m").toNat?.getD 1
+      let sz := (kv cmd "sz").toNat?.getD 4
+      let c := (kv cmd "c").toList
+      let lt (x y : Nat) : Bool := c.getD (x * m + y) '0' == '-'
+      let got := csv r
+      if got.contains "torn" then ["qsort-element-torn"] else
+      let vals := got.map (fun e => ((e.splitOn ":").headD "").toNat?.getD 99999)
+      let tags := got.map (fun e => ((e.splitOn ":").getD 1 "").toNat?.getD 99999)
+      let permOk :=
+        if sz > 4 then isort (fun a b => decide (a < b)) tags == List.range v.length &&
+                       (vals.zip tags).all (fun p => v.getD p.2 99998 == p.1)
+        else isort (fun a b => decide (a < b)) vals == isort (fun a b => decide (a < b)) v
+      let dom := v.eraseDups
+      let strict := dom.all (fun x => dom.all (fun y => !(lt x y && lt y x) &&
+                      dom.all (fun z => !(lt x y && lt y z) || lt x z)))
+      let rec sortedFrom : List Nat → Bool
+        | [] => true
+        | x :: rest => rest.all (fun y => !(lt y x)) && sortedFrom rest
+      (if permOk then [] else [s!"qsort-not-a-permutation got={r}"]) ++
+      (if !strict || sortedFrom vals then [] else [s!"qsort-not-sorted got={r}"])
+    | _ => [s!"uqsort-unexpected-output {out}"]
   | "utimes" :: b :: f :: _ =>
     match out with
     | ["times", r] =>
@@ -485,7 +513,7 @@ def judge (caseLines : List String) (trace : List String) : List String :=
           | l :: tr' => go rest tr' (traceLine s 0 l).1 fuel
           | [] => go rest [] (s.flag "restart-without-output") fuel
         | cmd :: _ =>
-          if ["usort", "ureloc", "upatch", "utimes"].contains cmd then
+          if ["usort", "ureloc", "upatch", "utimes", "uqsort"].contains cmd then
             let n := unitOutputsOf (toks c)
             let outs := tr.take n
             let (s, _) := outs.foldl (fun (p : JState × Nat) l => traceLine p.1 p.2 l) (s, 0)
